@@ -1,9 +1,742 @@
+// hx-c10: three-way lockstep of ds.NewList(true), ds.NewList() and container/list on random operation
+// histories; every call's result and all observations after it are written as Coq terms (cases.v) and
+// compared with the model there; the Go-side oracle compares the two ds flavours with container/list.
 package main
 
-import "os"
+import (
+	"encoding/json"
+	"flag"
+	"fmt"
+	"os"
+	"reflect"
+	"strings"
+	"time"
+
+	"verif/harness/vx"
+)
+
+const (
+	NIL = -1000000 // the nil handle
+	UNK = -2000000 // a pointer the harness has never seen
+)
+
+type op struct {
+	K string `json:"k"`
+	L int    `json:"l"`
+	O int    `json:"o"`
+	V int    `json:"v"`
+	E int    `json:"e"` // element handle id (>= 0) or -(l+1) for the sentinel of list l
+	M int    `json:"m"`
+}
+
+func ptrCoq(id int) string {
+	if id >= 0 {
+		return fmt.Sprintf("(El %d%%nat)", id)
+	}
+	return fmt.Sprintf("(Root %d%%nat)", -id-1)
+}
+
+func optPtrCoq(id int) string {
+	if id == NIL {
+		return "None"
+	}
+	if id == UNK {
+		return "(Some (El 999999%nat))"
+	}
+	return "(Some " + ptrCoq(id) + ")"
+}
+
+func (o op) coq() string {
+	switch o.K {
+	case "Init":
+		return fmt.Sprintf("Init %d%%nat", o.L)
+	case "PushFront", "PushBack":
+		return fmt.Sprintf("%s %d%%nat %s", o.K, o.L, vx.Z(int64(o.V)))
+	case "Remove", "MoveToFront", "MoveToBack":
+		return fmt.Sprintf("%s %d%%nat %s", o.K, o.L, ptrCoq(o.E))
+	case "InsertBefore", "InsertAfter":
+		return fmt.Sprintf("%s %d%%nat %s %s", o.K, o.L, vx.Z(int64(o.V)), ptrCoq(o.M))
+	case "MoveBefore", "MoveAfter":
+		return fmt.Sprintf("%s %d%%nat %s %s", o.K, o.L, ptrCoq(o.E), ptrCoq(o.M))
+	case "PushBackList", "PushFrontList":
+		return fmt.Sprintf("%s %d%%nat %d%%nat", o.K, o.L, o.O)
+	}
+	panic("bad op " + o.K)
+}
+
+// ---------- per-implementation bookkeeping: raw handles <-> ids ----------
+
+type tracker struct {
+	w     W
+	nl    int
+	ids   map[uintptr]int
+	hs    []H
+	roots map[int]H
+	errs  []string
+}
+
+func newTracker(w W, nl int) *tracker {
+	return &tracker{w: w, nl: nl, ids: map[uintptr]int{}, roots: map[int]H{}}
+}
+
+func (t *tracker) errf(f string, a ...any) { t.errs = append(t.errs, fmt.Sprintf(f, a...)) }
+
+func (t *tracker) id(h H) int {
+	if h == nil {
+		return NIL
+	}
+	k := t.w.Key(h)
+	if k == 0 {
+		t.errf("typed-nil handle returned")
+		return UNK
+	}
+	if id, ok := t.ids[k]; ok {
+		return id
+	}
+	for l := 0; l < t.nl; l++ {
+		if k == t.w.RootKey(l) {
+			t.roots[l] = h
+			return -(l + 1)
+		}
+	}
+	t.errf("unknown pointer returned")
+	return UNK
+}
+
+func (t *tracker) known(h H) bool {
+	if h == nil {
+		return false
+	}
+	k := t.w.Key(h)
+	if _, ok := t.ids[k]; ok {
+		return true
+	}
+	for l := 0; l < t.nl; l++ {
+		if k == t.w.RootKey(l) {
+			return true
+		}
+	}
+	return false
+}
+
+func (t *tracker) reg(h H) int {
+	id := len(t.hs)
+	t.ids[t.w.Key(h)] = id
+	t.hs = append(t.hs, h)
+	return id
+}
+
+func (t *tracker) raw(id int) H {
+	if id >= 0 {
+		return t.hs[id]
+	}
+	return t.roots[-id-1]
+}
+
+func (t *tracker) newHandleOut(h H) string {
+	if h == nil {
+		return "OHandle None"
+	}
+	if t.w.Key(h) == 0 || t.known(h) {
+		t.errf("insert returned a handle that is not new")
+		return "OHandle " + optPtrCoq(t.id(h))
+	}
+	return "OHandle (Some " + ptrCoq(t.reg(h)) + ")"
+}
+
+// apply runs one call; "undiscoverable" means the elements created by a whole-list push could not be
+// found again through Back/Prev resp. Front/Next (only possible in post-Init zombie states).
+func (t *tracker) apply(o op) (out string, undiscoverable bool) {
+	w := t.w
+	switch o.K {
+	case "Init":
+		if w.Init(o.L) {
+			return fmt.Sprintf("OList %d%%nat", o.L), false
+		}
+		return "OList 99%nat", false
+	case "PushFront":
+		return t.newHandleOut(w.PushFront(o.L, o.V)), false
+	case "PushBack":
+		return t.newHandleOut(w.PushBack(o.L, o.V)), false
+	case "Remove":
+		return "OVal " + vx.Z(int64(w.Remove(o.L, t.raw(o.E)))), false
+	case "InsertBefore":
+		return t.newHandleOut(w.InsertBefore(o.L, o.V, t.raw(o.M))), false
+	case "InsertAfter":
+		return t.newHandleOut(w.InsertAfter(o.L, o.V, t.raw(o.M))), false
+	case "MoveToFront":
+		w.MoveToFront(o.L, t.raw(o.E))
+	case "MoveToBack":
+		w.MoveToBack(o.L, t.raw(o.E))
+	case "MoveBefore":
+		w.MoveBefore(o.L, t.raw(o.E), t.raw(o.M))
+	case "MoveAfter":
+		w.MoveAfter(o.L, t.raw(o.E), t.raw(o.M))
+	case "PushBackList", "PushFrontList":
+		n := w.Len(o.O)
+		var cur H
+		if o.K == "PushBackList" {
+			w.PushBackList(o.L, o.O)
+			cur = w.Back(o.L)
+		} else {
+			w.PushFrontList(o.L, o.O)
+			cur = w.Front(o.L)
+		}
+		// the model numbers the copies in creation order: walk back from the newest
+		var found []H
+		for i := 0; i < n; i++ {
+			if cur == nil || t.w.Key(cur) == 0 || t.known(cur) {
+				return "ONone", true
+			}
+			found = append(found, cur)
+			if o.K == "PushBackList" {
+				cur = w.Prev(cur)
+			} else {
+				cur = w.Next(cur)
+			}
+		}
+		for i := len(found) - 1; i >= 0; i-- {
+			t.reg(found[i])
+		}
+	default:
+		panic("bad op " + o.K)
+	}
+	return "ONone", false
+}
+
+type lobs struct {
+	Len, Front, Back int
+	Ids              []int // ids met walking Front..Next (bounded)
+	Vals, RVals      []int
+}
+type hobs struct{ Prev, Next, Val int }
+type obs struct {
+	Lists  []lobs
+	Hs     []hobs
+	Cyclic bool
+}
+
+func (t *tracker) observe() obs {
+	w := t.w
+	var ob obs
+	bound := len(t.hs) + 3
+	for l := 0; l < t.nl; l++ {
+		lo := lobs{Len: w.Len(l), Front: t.id(w.Front(l)), Back: t.id(w.Back(l)), Ids: []int{}}
+		steps := 0
+		for e := w.Front(l); e != nil; e = w.Next(e) {
+			lo.Ids = append(lo.Ids, t.id(e))
+			if steps++; steps > bound {
+				ob.Cyclic = true
+				break
+			}
+		}
+		steps = 0
+		for e := w.Back(l); e != nil; e = w.Prev(e) {
+			if steps++; steps > bound {
+				ob.Cyclic = true
+				break
+			}
+		}
+		if !ob.Cyclic {
+			var why string
+			if lo.Vals, why = w.Values(l); why != "" {
+				t.errf("%s", why)
+			}
+			if lo.RVals, why = w.RValues(l); why != "" {
+				t.errf("%s", why)
+			}
+		}
+		ob.Lists = append(ob.Lists, lo)
+	}
+	for _, h := range t.hs {
+		ob.Hs = append(ob.Hs, hobs{Prev: t.id(w.Prev(h)), Next: t.id(w.Next(h)), Val: w.Value(h)})
+	}
+	return ob
+}
+
+// ---------- watchdog ----------
+
+var slowOps int
+
+// guarded runs f in its own goroutine: "ok", "panic", or "hang" (no return within 300 ms, confirmed by
+// a further 4 s of grace so that a merely busy machine is not mistaken for a deadlock).
+func guarded(f func()) string {
+	done := make(chan string, 1)
+	go func() {
+		defer func() {
+			if r := recover(); r != nil {
+				done <- "panic"
+			}
+		}()
+		f()
+		done <- "ok"
+	}()
+	t := time.NewTimer(300 * time.Millisecond)
+	defer t.Stop()
+	select {
+	case k := <-done:
+		return k
+	case <-t.C:
+	}
+	select {
+	case k := <-done:
+		slowOps++
+		return k
+	case <-time.After(4 * time.Second):
+		return "hang"
+	}
+}
+
+type stepRes struct {
+	Kind  string // ok | panic | hang | undiscoverable | cyclic
+	Out   string
+	Obs   obs
+	Errs  []string
+	Alloc int
+}
+
+func (t *tracker) step(o op) stepRes {
+	var r stepRes
+	var und bool
+	r.Kind = guarded(func() { r.Out, und = t.apply(o) })
+	if r.Kind == "ok" && und {
+		r.Kind = "undiscoverable"
+	}
+	if r.Kind == "ok" {
+		k := guarded(func() { r.Obs = t.observe() })
+		if k != "ok" {
+			r.Kind = k + "-in-observation"
+		} else if r.Obs.Cyclic {
+			r.Kind = "cyclic"
+		}
+	}
+	r.Errs, t.errs = t.errs, nil
+	r.Alloc = len(t.hs)
+	return r
+}
+
+// ---------- lockstep run of one history (given or generated on the fly) ----------
+
+type stepRec struct {
+	Op   op
+	Res  stepRes // of ds.NewList(true), the flavour the model transcribes
+	Hang bool    // the thread-safe flavour hung
+}
+
+type runResult struct {
+	Steps []stepRec
+	Fail  string // Go-side oracle: the ds flavours differ from container/list
+	End   string // why the history ended early (panic, cyclic, ...)
+}
+
+type chooser func(step int, ref *stepRes, alloc int, leaked []int) (op, bool)
+
+func sameRes(a, b stepRes) string {
+	if a.Kind != b.Kind {
+		return fmt.Sprintf("outcome %s vs %s", a.Kind, b.Kind)
+	}
+	if a.Kind == "panic" || a.Kind == "undiscoverable" || a.Kind == "cyclic" {
+		return ""
+	}
+	if a.Out != b.Out {
+		return fmt.Sprintf("result %s vs %s", a.Out, b.Out)
+	}
+	if !reflect.DeepEqual(a.Obs, b.Obs) {
+		return fmt.Sprintf("observations %+v vs %+v", a.Obs, b.Obs)
+	}
+	return ""
+}
+
+func lockstep(nl int, next chooser) runResult {
+	plain := newTracker(newDsWorld(nl, true), nl)
+	ts := newTracker(newDsWorld(nl, false), nl)
+	ref := newTracker(newClWorld(nl), nl)
+	var rr runResult
+	var last *stepRes
+	for i := 0; ; i++ {
+		var leaked []int
+		for l := 0; l < nl; l++ {
+			if plain.roots[l] != nil && ts.roots[l] != nil && ref.roots[l] != nil {
+				leaked = append(leaked, -(l + 1))
+			}
+		}
+		o, ok := next(i, last, len(ref.hs), leaked)
+		if !ok {
+			return rr
+		}
+		rp, rt, rc := plain.step(o), ts.step(o), ref.step(o)
+		rec := stepRec{Op: o, Res: rp, Hang: rt.Kind == "hang"}
+		for _, e := range [][]string{rp.Errs, rt.Errs, rc.Errs} {
+			if len(e) > 0 && rr.Fail == "" {
+				rr.Fail = "harness-visible inconsistency: " + strings.Join(e, "; ")
+			}
+		}
+		if d := sameRes(rp, rc); d != "" && rr.Fail == "" {
+			rr.Fail = fmt.Sprintf("step %d %s: ds.NewList(true) vs container/list: %s", i, o.coq(), d)
+		}
+		if d := sameRes(rt, rc); d != "" && rr.Fail == "" {
+			rr.Fail = fmt.Sprintf("step %d %s: ds.NewList() vs container/list: %s", i, o.coq(), d)
+		}
+		switch {
+		case rp.Kind == "undiscoverable" || rp.Kind == "cyclic":
+			rr.End = rp.Kind // not representable as a case: stop before this step
+			return rr
+		case rp.Kind != "ok" && rp.Kind != "panic":
+			if rr.Fail == "" {
+				rr.Fail = fmt.Sprintf("step %d %s: ds.NewList(true): %s", i, o.coq(), rp.Kind)
+			}
+			rr.End = rp.Kind
+			return rr
+		}
+		rr.Steps = append(rr.Steps, rec)
+		if rp.Kind == "panic" || rr.Fail != "" || rt.Kind != "ok" || rc.Kind != "ok" {
+			rr.End = rp.Kind + "/" + rt.Kind + "/" + rc.Kind
+			return rr
+		}
+		cp := rc
+		last = &cp
+	}
+}
+
+// ---------- generator ----------
+
+type gen struct {
+	r      *vx.Rng
+	nl     int
+	maxLen int
+	zombie bool // may pass handles orphaned by Init and leaked sentinels
+	orph   map[int]bool
+	vnext  int
+	lists  [][]int
+}
+
+func (g *gen) pick(l int, alloc int, leaked []int) (int, string) {
+	if alloc == 0 {
+		return 0, ""
+	}
+	inList := map[int]bool{}
+	var other, removed, orph []int
+	for k, ids := range g.lists {
+		for _, id := range ids {
+			if id >= 0 {
+				inList[id] = true
+				if k != l {
+					other = append(other, id)
+				}
+			}
+		}
+	}
+	for id := 0; id < alloc; id++ {
+		if g.orph[id] && !inList[id] {
+			orph = append(orph, id)
+		} else if !inList[id] {
+			removed = append(removed, id)
+		}
+	}
+	var live []int
+	for _, id := range g.lists[l] {
+		if id >= 0 && !g.orph[id] {
+			live = append(live, id)
+		}
+	}
+	roll := g.r.Intn(100)
+	switch {
+	case roll < 64 && len(live) > 0:
+		return vx.Pick(g.r, live), "live"
+	case roll < 76 && len(other) > 0:
+		return vx.Pick(g.r, other), "other-list"
+	case roll < 88 && len(removed) > 0:
+		return vx.Pick(g.r, removed), "removed"
+	case roll < 95 && g.zombie && len(orph) > 0:
+		return vx.Pick(g.r, orph), "orphan"
+	case roll < 98 && g.zombie && len(leaked) > 0:
+		return vx.Pick(g.r, leaked), "sentinel"
+	}
+	for tries := 0; tries < 20; tries++ {
+		id := g.r.Intn(alloc)
+		if g.zombie || !g.orph[id] {
+			if inList[id] {
+				return id, "live-any"
+			}
+			return id, "removed"
+		}
+	}
+	return -999, ""
+}
+
+var kinds = []struct {
+	k string
+	w int
+}{{"PushFront", 10}, {"PushBack", 12}, {"Remove", 11}, {"InsertBefore", 9}, {"InsertAfter", 9}, {"MoveToFront", 7},
+	{"MoveToBack", 7}, {"MoveBefore", 11}, {"MoveAfter", 11}, {"PushBackList", 4}, {"PushFrontList", 4}, {"Init", 2}}
+
+func (g *gen) choose(st *vx.Stats) chooser {
+	return func(step int, ref *stepRes, alloc int, leaked []int) (op, bool) {
+		if step >= g.maxLen {
+			return op{}, false
+		}
+		g.lists = make([][]int, g.nl)
+		if ref != nil {
+			for l := range ref.Obs.Lists {
+				g.lists[l] = ref.Obs.Lists[l].Ids
+			}
+		}
+		for tries := 0; tries < 50; tries++ {
+			tot := 0
+			for _, k := range kinds {
+				tot += k.w
+			}
+			x := g.r.Intn(tot)
+			var k string
+			for _, c := range kinds {
+				if x < c.w {
+					k = c.k
+					break
+				}
+				x -= c.w
+			}
+			o := op{K: k, L: g.r.Intn(g.nl)}
+			creates := 0
+			switch k {
+			case "PushFront", "PushBack":
+				g.vnext++
+				o.V, creates = g.vnext, 1
+			case "InsertBefore", "InsertAfter":
+				g.vnext++
+				o.V, creates = g.vnext, 1
+				var cat string
+				if o.M, cat = g.pick(o.L, alloc, leaked); cat == "" {
+					continue
+				}
+				st.Count("handle:" + cat)
+			case "Remove", "MoveToFront", "MoveToBack":
+				var cat string
+				if o.E, cat = g.pick(o.L, alloc, leaked); cat == "" {
+					continue
+				}
+				st.Count("handle:" + cat)
+			case "MoveBefore", "MoveAfter":
+				var c1, c2 string
+				if o.E, c1 = g.pick(o.L, alloc, leaked); c1 == "" {
+					continue
+				}
+				if g.r.Chance(1, 8) {
+					o.M, c2 = o.E, "same"
+				} else if o.M, c2 = g.pick(o.L, alloc, leaked); c2 == "" {
+					continue
+				}
+				st.Count("handle:" + c1)
+				st.Count("mark:" + c2)
+			case "PushBackList", "PushFrontList":
+				o.O = g.r.Intn(g.nl)
+				if g.r.Chance(1, 3) {
+					o.O = o.L
+				}
+				creates = len(g.lists[o.O])
+				if o.O == o.L {
+					st.Count("pushlist:self")
+				}
+			case "Init":
+				for _, id := range g.lists[o.L] {
+					if id >= 0 {
+						g.orph[id] = true
+					}
+				}
+			}
+			if creates > 0 && alloc+creates > 16 {
+				continue
+			}
+			return o, true
+		}
+		return op{}, false
+	}
+}
+
+// ---------- directed histories (every defect found, and the corner cases of the contract) ----------
+
+func directed() [][]op {
+	pb := func(l, v int) op { return op{K: "PushBack", L: l, V: v} }
+	abc := []op{pb(0, 1), pb(0, 2), pb(0, 3)}
+	cat := func(a []op, b ...op) []op { return append(append([]op{}, a...), b...) }
+	return [][]op{
+		cat(abc, op{K: "MoveBefore", L: 0, E: 2, M: 0}, op{K: "MoveAfter", L: 0, E: 0, M: 2}), // D10a
+		cat(abc, op{K: "MoveAfter", L: 0, E: 0, M: 2}, op{K: "MoveBefore", L: 0, E: 1, M: 0}),
+		cat(abc, op{K: "MoveBefore", L: 0, E: 1, M: 2}, op{K: "MoveAfter", L: 0, E: 1, M: 0}, op{K: "MoveBefore", L: 0, E: 1, M: 1}), // adjacent: no-ops
+		{pb(0, 1), pb(0, 2), {K: "PushBackList", L: 0, O: 0}, {K: "PushFrontList", L: 0, O: 0}},                                      // D10b
+		{pb(0, 1), pb(1, 2), pb(1, 3), {K: "PushFrontList", L: 0, O: 1}, {K: "PushBackList", L: 1, O: 0}},
+		{pb(0, 1), {K: "Init", L: 0}, {K: "Init", L: 1}, pb(0, 2)},                                                                                                                                      // D10c
+		{pb(0, 1), {K: "Init", L: 0}, {K: "InsertAfter", L: 0, V: 2, M: 0}, {K: "Remove", L: 0, E: -1}, {K: "PushBackList", L: 1, O: 0}},                                                                // D10d (sentinel leaks)
+		{pb(0, 1), pb(1, 2), {K: "Remove", L: 1, E: 0}, {K: "MoveToFront", L: 1, E: 0}, {K: "InsertBefore", L: 1, V: 3, M: 0}, {K: "MoveBefore", L: 0, E: 0, M: 1}, {K: "MoveAfter", L: 1, E: 1, M: 0}}, // foreign handles
+		{pb(0, 1), pb(0, 2), {K: "Remove", L: 0, E: 0}, {K: "Remove", L: 0, E: 0}, {K: "InsertAfter", L: 0, V: 3, M: 0}, {K: "MoveToBack", L: 0, E: 0}, {K: "MoveBefore", L: 0, E: 1, M: 0}},            // removed handles
+		cat(abc, op{K: "MoveToFront", L: 0, E: 2}, op{K: "MoveToFront", L: 0, E: 2}, op{K: "MoveToBack", L: 0, E: 2}, op{K: "MoveToBack", L: 0, E: 2}, op{K: "Remove", L: 0, E: 0}, op{K: "Remove", L: 0, E: 1}, op{K: "Remove", L: 0, E: 2}),
+		{pb(0, 1), {K: "Init", L: 0}, {K: "Remove", L: 0, E: 0}, {K: "PushFront", L: 0, V: 2}, {K: "PushBackList", L: 1, O: 0}}, // orphan removed: Len = -1 then 0
+	}
+}
+
+func scripted(h []op) chooser {
+	return func(step int, _ *stepRes, _ int, _ []int) (op, bool) {
+		if step >= len(h) {
+			return op{}, false
+		}
+		return h[step], true
+	}
+}
+
+// ---------- emission ----------
+
+func intsCoq(xs []int) string {
+	return vx.ListOf(xs, func(v int) string { return vx.Z(int64(v)) })
+}
+
+func encPtr(id int) int {
+	if id == UNK {
+		return 999999
+	}
+	return id // NIL = -1000000, El n = n, Root l = -(l+1): the encoding of Corr.enc_ptr
+}
+
+// fingerprint = Corr.fp: multiplicative hash modulo 2^63, top 30 bits.
+func fingerprint(mul, start uint64, xs []int) uint64 {
+	const mask = 1<<63 - 1
+	h := start
+	for _, x := range xs {
+		h = (h*mul + uint64(x+2000000)) & mask
+	}
+	return h >> 33
+}
+
+func stepCoq(s stepRec, full bool) string {
+	if s.Res.Kind == "panic" {
+		return fmt.Sprintf("so None %s false []", vx.Bool(s.Hang))
+	}
+	var flat []int
+	for _, l := range s.Res.Obs.Lists {
+		flat = append(flat, l.Len, encPtr(l.Front), encPtr(l.Back), len(l.Vals))
+		flat = append(flat, l.Vals...)
+		flat = append(flat, len(l.RVals))
+		flat = append(flat, l.RVals...)
+	}
+	for _, h := range s.Res.Obs.Hs {
+		flat = append(flat, encPtr(h.Prev), encPtr(h.Next), h.Val)
+	}
+	if !full {
+		return fmt.Sprintf("so (Some (%s)) %s true [%d;%d]", s.Res.Out, vx.Bool(s.Hang), fingerprint(1000003, 17, flat), fingerprint(69069, 23, flat))
+	}
+	parts := make([]string, len(flat))
+	for i, v := range flat {
+		if v < 0 {
+			parts[i] = fmt.Sprintf("(%d)", v)
+		} else {
+			parts[i] = fmt.Sprintf("%d", v)
+		}
+	}
+	return fmt.Sprintf("so (Some (%s)) %s false [%s]", s.Res.Out, vx.Bool(s.Hang), strings.Join(parts, ";"))
+}
+
+func emit(cf *vx.CasesFile, st *vx.Stats, nl int, rr runResult, tag string, zombie bool, full bool) {
+	ops := make([]op, len(rr.Steps))
+	keyParts := make([]string, len(rr.Steps))
+	maxLive, handleOps := 0, 0
+	for i, s := range rr.Steps {
+		ops[i] = s.Op
+		keyParts[i] = s.Op.coq()
+		st.Count("op:" + s.Op.K)
+		for _, l := range s.Res.Obs.Lists {
+			if len(l.Ids) > maxLive {
+				maxLive = len(l.Ids)
+			}
+		}
+		switch s.Op.K {
+		case "Remove", "InsertBefore", "InsertAfter", "MoveToFront", "MoveToBack", "MoveBefore", "MoveAfter":
+			handleOps++
+		}
+	}
+	if rr.End != "" {
+		st.Count("ended-early:" + rr.End)
+	}
+	if zombie {
+		st.Count("history:zombie-handles-allowed")
+	} else {
+		st.Count("history:zombie-free")
+	}
+	cf.Add(fmt.Sprintf("mkc %d%%nat %s %s", nl, vx.ListOf(ops, op.coq), vx.ListOf(rr.Steps, func(s stepRec) string { return stepCoq(s, full) })))
+	if full {
+		st.Count("observations:full")
+	} else {
+		st.Count("observations:fingerprint")
+	}
+	st.Case(strings.Join(keyParts, ";"), maxLive >= 2 && handleOps >= 1)
+	st.CaseIndex = append(st.CaseIndex, map[string]any{"tag": tag, "lists": nl, "history": ops})
+	st.Sample(map[string]any{"history": keyParts}, 3)
+	if rr.Fail != "" {
+		st.Fail(map[string]any{"sig": "", "lists": nl, "history": ops, "why": rr.Fail})
+	}
+}
 
 func main() {
 	if len(os.Args) > 1 && os.Args[1] == "probe" {
 		probe()
+		return
+	}
+	if len(os.Args) < 2 || os.Args[1] != "hist" {
+		vx.Die("usage: hx-c10 hist --n N --len L --full K --seed S --out cases.v --stats stats.json [--replay file.json]")
+	}
+	fs := flag.NewFlagSet("hist", flag.ExitOnError)
+	n := fs.Int("n", 500, "")
+	maxLen := fs.Int("len", 30, "")
+	seed := fs.Uint64("seed", 1, "")
+	out := fs.String("out", "cases.v", "")
+	stats := fs.String("stats", "stats.json", "")
+	nfull := fs.Int("full", 100, "number of random histories written with the full observation lists (the rest carry fingerprints)")
+	replay := fs.String("replay", "", "JSON file {lists, history} to replay instead of generating")
+	_ = fs.Parse(os.Args[2:])
+	r := vx.NewRng(*seed)
+	st := vx.NewStats("random operation histories over 2 lists (all 12 mutating methods; handle arguments live / other list / removed / orphaned by Init / leaked sentinel; values distinct) run in lockstep on ds.NewList(true), ds.NewList() and container/list; distinct = distinct histories; non-trivial = some list held >= 2 elements and at least one handle-relative call")
+	cf := &vx.CasesFile{
+		Header: "From Coq Require Import ZArith List.\nFrom Verif.C10_List Require Import Model Corr.\nImport ListNotations.\nOpen Scope Z_scope.\n",
+		Type:   "case",
+		Footer: "Definition M := Eval vm_compute in mismatches cases.\nPrint M.\n",
+	}
+	if *replay != "" {
+		b, err := os.ReadFile(*replay)
+		if err != nil {
+			vx.Die("%v", err)
+		}
+		var obj struct {
+			Case struct {
+				Lists   int  `json:"lists"`
+				History []op `json:"history"`
+			} `json:"case"`
+			Lists   int  `json:"lists"`
+			History []op `json:"history"`
+		}
+		if err := json.Unmarshal(b, &obj); err != nil {
+			vx.Die("%v", err)
+		}
+		if obj.History == nil {
+			obj.Lists, obj.History = obj.Case.Lists, obj.Case.History
+		}
+		if obj.Lists == 0 {
+			obj.Lists = 2
+		}
+		rr := lockstep(obj.Lists, scripted(obj.History))
+		emit(cf, st, obj.Lists, rr, "replay", true, true)
+		fmt.Printf("replayed %d steps; end=%q; oracle: %q\n", len(rr.Steps), rr.End, rr.Fail)
+	} else {
+		for _, h := range directed() {
+			emit(cf, st, 2, lockstep(2, scripted(h)), "directed", true, true)
+		}
+		for cf.Len() < *n {
+			g := &gen{r: r.Fork(), nl: 2, maxLen: 4 + r.Intn(*maxLen-3), zombie: r.Chance(1, 4), orph: map[int]bool{}}
+			emit(cf, st, 2, lockstep(2, g.choose(st)), "random", g.zombie, *nfull > 0)
+			*nfull--
+		}
+	}
+	st.Extra["slow_ops_over_300ms"] = slowOps
+	if err := cf.Write(*out); err != nil {
+		vx.Die("%v", err)
+	}
+	if err := st.Write(*stats); err != nil {
+		vx.Die("%v", err)
 	}
 }
